@@ -55,7 +55,11 @@ pub fn c09_env_padding() {
     let len: usize = kani::any();
     kani::assume(len <= 8);
     let expected: u8 = kani::any();
-    let r = SecureChannel::verif_check_padding_bytes(&bytes[..len], expected, kani::any());
+    // the third argument only goes into a log message: the offset of the padding in the chunk, i.e. an index into a buffer
+    // (the callers pass `padding_range.start` of a range inside `src`), so start + len never exceeds isize::MAX
+    let start: usize = kani::any();
+    kani::assume(start <= (isize::MAX as usize) - 8);
+    let r = SecureChannel::verif_check_padding_bytes(&bytes[..len], expected, start);
     let mut all = true;
     let mut i = 0;
     while i < len { if bytes[i] != expected { all = false; } i += 1; }
